@@ -8,6 +8,7 @@ Arguments upd : simpl never.
 
 Section Term.
 Variable loads : label -> list label.
+Variable bad : label -> bool.
 Variable roots : list label.
 Variable U : list label.
 Hypothesis U_nodup : NoDup U.
@@ -60,7 +61,7 @@ Qed.
 Lemma thr_seen_nowalk : forall st p, (forall t c sn, p <> PWalk t c sn) -> thr_seen (mkT st p).
 Proof. intros st p H m ls rest t cur seen _ Hp. cbn in Hp. exfalso. eapply H; eauto. Qed.
 
-Lemma inv_seen_step : forall s tid s', inv_seen s -> inv_g loads roots s -> kstep loads s tid s' -> inv_seen s'.
+Lemma inv_seen_step : forall s tid s', inv_seen s -> inv_g loads roots s -> kstep loads bad s tid s' -> inv_seen s'.
 Proof.
   intros s tid s' IS IG K.
   assert (Hthr : forall (s0 : state) T0, thr s0 = thr s -> thr_seen T0 ->
@@ -70,8 +71,8 @@ Proof.
   destruct K; intros i; proj_simpl.
   all: try (match goal with |- thr_seen (upd (thr ?s0) _ _ _) => apply (Hthr s0); auto end;
             apply thr_seen_nowalk; intros; try discriminate;
-            try (destruct (after_pop_cases rest true) as [Hc|Hc]; rewrite Hc; discriminate);
-            try (destruct (after_pop_cases rest false) as [Hc|Hc]; rewrite Hc; discriminate);
+            try (match goal with |- context [after_pop ?r ?b] =>
+                   destruct (after_pop_cases r b) as [Hc|Hc]; rewrite Hc; discriminate end);
             try (destruct r; discriminate); fail).
   - (* KHitEdge *) apply (Hthr (set_loading s m (Some t))); auto.
     intros m0 ls0 rest0 t0 cur0 seen0 _ [= _ _ <-]. split; [constructor|intros x []].
@@ -145,8 +146,8 @@ Ltac norm H :=
   rewrite ?scost_cons, ?below_cons, ?below_nil, ?scost_nil, ?fc_eq in H; cbn [length] in H;
   cbn [below map list_sum fold_right scost] in H.
 
-Lemma mu_step : forall s tid s', InvAll loads roots s -> inv_seen s -> tid < nthr s ->
-  kstep loads s tid s' -> mu s' < mu s.
+Lemma mu_step : forall s tid s', InvAll loads bad roots s -> inv_seen s -> tid < nthr s ->
+  kstep loads bad s tid s' -> mu s' < mu s.
 Proof.
   intros s tid s' [[IR IS IC] IG IK] ISn Hlt K.
   assert (Hreach : forall m ls rest, stack (thr s tid) = (m, ls) :: rest -> from_roots loads roots m).
@@ -199,49 +200,49 @@ Proof.
   - (* KRet *) destruct r; norm He; lia.
 Qed.
 
-Lemma inv_seen_reachable : forall s, reachable loads roots s -> inv_seen s.
+Lemma inv_seen_reachable : forall s, reachable loads bad roots s -> inv_seen s.
 Proof.
   intros s R. induction R.
   - apply inv_seen_init.
-  - destruct (step_kstep loads _ _ _ H) as [Hlt K]. eapply inv_seen_step; eauto.
-    apply (all_g _ _ _ (InvAll_reachable loads roots s R)).
+  - destruct (step_kstep loads bad _ _ _ H) as [Hlt K]. eapply inv_seen_step; eauto.
+    apply (all_g _ _ _ _ (InvAll_reachable loads bad roots s R)).
 Qed.
 
-Lemma run_measure : forall sched s s', reachable loads roots s -> run loads s sched = Some s' ->
+Lemma run_measure : forall sched s s', reachable loads bad roots s -> run loads bad s sched = Some s' ->
   length sched + mu s' <= mu s.
 Proof.
   induction sched as [|tid sched IH]; cbn; intros s s' R Hr.
   - injection Hr as <-. lia.
-  - destruct (step loads s tid) as [s1|] eqn:Hs; [|discriminate].
-    destruct (step_kstep loads _ _ _ Hs) as [Hlt K].
-    pose proof (mu_step s tid s1 (InvAll_reachable loads roots s R) (inv_seen_reachable s R) Hlt K).
-    assert (R1 : reachable loads roots s1) by (econstructor; eauto).
+  - destruct (step loads bad s tid) as [s1|] eqn:Hs; [|discriminate].
+    destruct (step_kstep loads bad _ _ _ Hs) as [Hlt K].
+    pose proof (mu_step s tid s1 (InvAll_reachable loads bad roots s R) (inv_seen_reachable s R) Hlt K).
+    assert (R1 : reachable loads bad roots s1) by (econstructor; eauto).
     specialize (IH s1 s' R1 Hr). lia.
 Qed.
 
-Lemma run_reachable : forall sched s s', reachable loads roots s -> run loads s sched = Some s' ->
-  reachable loads roots s'.
+Lemma run_reachable : forall sched s s', reachable loads bad roots s -> run loads bad s sched = Some s' ->
+  reachable loads bad roots s'.
 Proof.
   induction sched as [|tid sched IH]; cbn; intros s s' R Hr.
   - injection Hr as <-. auto.
-  - destruct (step loads s tid) as [s1|] eqn:Hs; [|discriminate].
+  - destruct (step loads bad s tid) as [s1|] eqn:Hs; [|discriminate].
     eapply IH; [|eauto]. econstructor; eauto.
 Qed.
 
-Lemma stuck_is_final : forall s, reachable loads roots s -> (forall tid, step loads s tid = None) -> final s.
+Lemma stuck_is_final : forall s, reachable loads bad roots s -> (forall tid, step loads bad s tid = None) -> final s.
 Proof.
   intros s R Hst tid Hlt.
   destruct (ph (thr s tid)) eqn:Hp; auto; exfalso;
-    (destruct (deadlock_free loads roots s R) as [tid' He]; [intros Hf; rewrite (Hf tid Hlt) in Hp; discriminate|];
+    (destruct (deadlock_free loads bad roots s R) as [tid' He]; [intros Hf; rewrite (Hf tid Hlt) in Hp; discriminate|];
      apply He; apply Hst).
 Qed.
 
 Theorem t_terminates : exists bound, forall sched s,
-  run loads (init roots) sched = Some s ->
-  length sched <= bound /\ ((forall tid, step loads s tid = None) -> final s).
+  run loads bad (init roots) sched = Some s ->
+  length sched <= bound /\ ((forall tid, step loads bad s tid = None) -> final s).
 Proof.
   exists (mu (init roots)). intros sched s Hr. split.
-  - pose proof (run_measure sched (init roots) s (reach_init loads roots) Hr). lia.
+  - pose proof (run_measure sched (init roots) s (reach_init loads bad roots) Hr). lia.
   - apply stuck_is_final. eapply run_reachable; [apply reach_init|eauto].
 Qed.
 
